@@ -84,12 +84,13 @@ FRAME_QUICK = [
     ("c11", "depth2"),
     ("c09", "recursive_root_only"),
     ("c09", "already_signed_actions"),
-    ("c06", "encrypt_and_generate_cli_k0"),
+    ("c06", "generate_info"),
     ("c14", "history_same_object_k2"),
     ("c07", "one_envelope_nrf54h20_severed0"),
     ("c19", "root_subset0_100"),
 ]
 FRAME_THOROUGH = FRAME_QUICK + [
+    ("c06", "encrypt_and_generate_cli_k0"),
     ("c02", "area_authentication_blocks1"),
     ("c02", "area_manifest_b"),
     ("c02", "area_common_members0"),
@@ -296,6 +297,7 @@ def h_encrypt_det(exclude=()):
         cbormodel.reset()
         stubs.HashLog.reset()
         c06.AesLog.CALLS, c06.AesLog.URANDOM = [], []
+        c06.reset_environment()
         fs.names, fs.contents, fs.writes = [], [], []
         key = chx.sym_bytes("key", 32)
         fs.add("/keys/fwkey.bin", key)
